@@ -32,6 +32,7 @@ MANIFEST = dict(
          "to condition number <= 400 as the property states",
     design_ref="DESIGN.md section 3 C02")
 ASSUMPTIONS = [
+    "histories whose accumulated matrix has a condition number above 1e5 are cut off (outside the property's quantifier)",
     "point(t) of an arc is compared at equal t (the property states (X*M).point(t) = M(X.point(t)))",
 ]
 
@@ -246,6 +247,10 @@ class Histories(SubCheck):
             except Exception as e:  # noqa
                 out.fail("history %r on %s raised %s" % (case["history"][:step + 1], oname, type(e).__name__), None,
                          repr(e), kind="exception", exc=type(e).__name__, **tags)
+                return out
+            if af.cond(af.mul(A, own)) > 1e5:
+                # the property quantifies over matrices with condition number up to ~400; a product of three
+                # 400-conditioned factors (6.4e7) is outside it and float conditioning takes over
                 return out
             out.transitions += 1
             S = scale_of(base, A)
